@@ -1,6 +1,7 @@
 ---- MODULE J_C10 ----
 EXTENDS StreamParser, Frame, Json, IOUtils, TLC
-(* C10: SmlReader over a transmission  g0 . Canonical(F1) . g1 ... Fk . gk  yields, call by call, the discarded-bytes
+(* (calls: <<api, target>>, api 0 next, 1 read, 2 next_nb, 3 read_nb - on these sources the nb variants never block)
+   C10: SmlReader over a transmission  g0 . Canonical(F1) . g1 ... Fk . gk  yields, call by call, the discarded-bytes
    reports for the noise and the files in order in the representation each call asks for (raw payload, parsed file
    per SmlGrammar, event stream per StreamParser), then the leftover report and end of input; and its results equal
    the hand composition of decode_streaming with the parsers. *)
@@ -32,7 +33,7 @@ SlotOk(call, res, slot, files, T) ==
        [] slot[1] = "val"  -> ValueOk(t, res, files[slot[3]])
        [] slot[1] = "eof"  -> Len(res) = 3 /\ res[2] = 0 /\ EvOk2(res[3], <<T, 9, 0, slot[3]>>)
        [] OTHER -> \* past the end: next -> None, read -> end-of-file error with count 0
-            IF call[1] = 0 THEN Len(res) = 3 /\ res[2] = 10 /\ PosOk(res[3], T)
+            IF call[1] \in {0, 2} THEN Len(res) = 3 /\ res[2] = 10 /\ PosOk(res[3], T)     \* next / next_nb
             ELSE Len(res) = 3 /\ res[2] = 0 /\ EvOk2(res[3], <<T, 9, 0, 0>>)
 
 StripPos(res) == IF Len(res) = 3 /\ res[2] = 0 THEN <<res[1], 0, SubSeq(res[3], 2, Len(res[3]))>>
